@@ -87,13 +87,8 @@ def json_to_value(c, heap, holes, cache=None, key=None):
     if t == "float":
         return V("float", struct.unpack("<d", struct.pack("<Q", int(c["bits"])))[0])
     if t == "str":
-        # one allocation per constant-pool entry (the pool holds ONE object per literal)
-        if cache is not None and key in cache:
-            return cache[key]
-        v = V("str", heap.alloc("str", list(c["v"])))
-        if cache is not None:
-            cache[key] = v
-        return v
+        # Const pushes a fresh copy of a string constant (strings are mutable in place)
+        return V("str", heap.alloc("str", list(c["v"])))
     if t == "arr":
         return V("arr", heap.alloc("arr", [json_to_value(x, heap, holes) for x in c["v"]]))
     raise AssertionError(t)
@@ -543,10 +538,21 @@ def call_builtin(m, name, args):
     heap = m.heap
     if name == "print":
         if args:
-            segs = norm_segments(display(args[0], heap))
+            # builtins.rs call_print: one left-to-right scan of the format text; inserted text is not rescanned
+            rest = norm_segments(display(args[0], heap))
+            done = []
             for a in args[1:]:
-                segs = norm_segments(replacen_once(segs, display(a, heap)))
-            m.out += segs
+                hit = None
+                for i, sg in enumerate(rest):
+                    if isinstance(sg, str) and sg.find("{}") >= 0:
+                        hit = (i, sg.find("{}"))
+                        break
+                if hit is None:
+                    break
+                i, p = hit
+                done += rest[:i] + [rest[i][:p]] + display(a, heap)
+                rest = [rest[i][p + 2:]] + rest[i + 1:]
+            m.out += norm_segments(done + rest)
         m.out.append("\n")
         return NULL
     if len(args) != 1:
